@@ -97,3 +97,12 @@ def run(tier, seed, mutant=None, only_validate=False):
     finally:
         shutil.rmtree(work, ignore_errors=True)
     return res
+
+
+TRACE_MODULE = "AsyncZipTrace"
+consts_of = lambda c: dict(K=c['nsrc'], NE=6, MaxSize=c['maxsize'], SyncCons=c['cons'][0] == 'sync', MaxOut=6, Recheck=True)
+
+
+def replay(v):
+    import sys as _s
+    return amod.replay_node(_s.modules[__name__], v)
